@@ -7,6 +7,12 @@
    of before/after hooks stacked on the responder; the error-handler registry (the three
    default registrations followed by add_error_handler calls in order).
 
+   Hooks: nb before hooks and na after hooks are stacked on the responder by decorators at method
+   level and/or class level, in any mixture.  Documented stacking: before hooks run outermost
+   decorator first, after hooks innermost first; class-level decorators wrap every responder of the
+   decorated class - defined by it or inherited, suffixed or not - outside the method-level ones.
+   Hook i below is the i-th in that execution order, whatever the mixture.
+
    One action per call the framework makes into application code ("call site").  What the
    called code does is chosen when the site is reached: return, mark the response complete
    (request/resource middleware), or raise an exception of some class.  Handler selection walks
